@@ -26,8 +26,9 @@ def linear_regression(tree) -> tuple[torch.Tensor, torch.Tensor]:
             dic[node] = dic[children[0]] + dic[children[1]]
             for c in dic[node]:
                 bls[c.index] += node.edge_length
-    ts = torch.tensor(ts)
-    bls = torch.tensor(bls)
+    # years are of order 2000: the sums of squares below cancel catastrophically in float32
+    ts = torch.tensor(ts, dtype=torch.float64)
+    bls = torch.tensor(bls, dtype=torch.float64)
     sumX = torch.sum(ts)
     sumY = torch.sum(bls)
     sumXX = torch.sum(ts**2.0)
